@@ -519,7 +519,7 @@ def parse_mismatches(out):
 
 
 def run(ck):
-    n = 100 if not ck.thorough else 1200
+    n = 200 if not ck.thorough else 3000
     big = 70000 if not ck.thorough else 200 * 1024
     ck.gen()
     built = ck.coq_make(MODEL + PROOFS, clean=ck.thorough)
@@ -536,8 +536,8 @@ def run(ck):
     scratch = os.environ.get("VERIF_SCRATCH") or os.path.join(vlib.BUILD, "scratch", "c18")
     if binp:
         shutil.rmtree(scratch, ignore_errors=True)
-        rc, out, err = vlib.sh2([binp, "-seed", str(ck.seed), "-n", str(n), "-big", str(big), "-dir", scratch],
-                                timeout=1500)
+        rc, out, err = vlib.sh2([binp, "-seed", str(ck.seed), "-n", str(n), "-big", str(big), "-dir", scratch,
+                                 "-deep", "2" if ck.thorough else "1"], timeout=1500)
         shutil.rmtree(scratch, ignore_errors=True)
         if rc != 0:
             ck.broken.append({"what": "harness run failed", "detail": err[-1500:]})
@@ -545,6 +545,24 @@ def run(ck):
             if line.startswith("{"):
                 cases.append(json.loads(line))
         ck.timings["harness_cases"] = len(cases)
+
+    # thorough tier: the free-running and forced-interleaving streams once more under the race detector
+    if ck.thorough and binp and shutil.which("gcc"):
+        nb = len(ck.broken)
+        binr = ck.build_harness("c18", race=True)
+        if binr:
+            rc, out, err = vlib.sh2([binr, "-seed", str(ck.seed), "-n", "600", "-big", "70000", "-dir", scratch,
+                                     "-streams", "free,sched"], timeout=1500)
+            shutil.rmtree(scratch, ignore_errors=True)
+            nraces = err.count("WARNING: DATA RACE")
+            ck.coverage["race_detector"] = {"cases": out.count("\n"), "races": nraces, "rc": rc}
+            if nraces:
+                i = err.index("WARNING: DATA RACE")
+                ck.violation("impl:race:data-race", "the race detector reports a data race during concurrent creates",
+                             {"report": err[i:i + 3000], "expected": "no data race", "observed": "%d reports" % nraces})
+        else:
+            del ck.broken[nb:]
+            ck.notes.append("race-detector build not available")
 
     # implementation-only oracle (also the search for a failing input)
     found = {}     # violation key -> [count, smallest failing case, why]
